@@ -84,4 +84,10 @@ META = {
   "note": "Trusts the reference interpreter in harness/c12 and kit/script framing; state is observed right after Wait returns and after a NOOP barrier.",
   "technique": "stateful property-based testing (rapid) against a reference interpreter of generated server transcripts",
  },
+ "C11": {
+  "text": "Generated, mutated and raw server byte streams against a client with a full battery of pending commands, with every accessor invoked on every delivered value; protocol-invariant checks on delivered data; child-process recursion probes and allocation-scaling probes; coverage-guided fuzzing of the same target in the thorough tier. Sampling, not proof.",
+  "design_ref": "DESIGN.md 3/C11",
+  "note": "A process-killing panic in a library goroutine is attributed through the in-flight case file written before each case; resource bounds are coarse envelopes.",
+  "technique": "property-based testing (rapid) + mutation + native go fuzzing, with invariant oracle over delivered values; child-process probes",
+ },
 }
